@@ -212,6 +212,9 @@ def run_trace(module, cfg, events, name, shards=8, timeout=1500, key="case", ext
                 if k == "BAD":
                     p["l"] = p["l"] + a  # global (1-based) line number
                     bad.append(p)
+                elif k == "DIVERGE":
+                    p["l"] = p["l"] + a
+                    stats.setdefault("diverge", []).append(p)
             os.remove(path)
     stats["wall_s"] = round(time.time() - t0, 1)
     bad.sort(key=lambda r: r["l"])
@@ -242,6 +245,9 @@ def finish(prop, tier, seed, t0, bad, events, cases, mc_stats, trace_stats, cove
         f = open_ids[k]
         print("KNOWN-FINDING: property=%s %s [%s; %d event(s) this run, e.g. case %s]"
               % (prop, f["what"], k, len(hits), hits[0].get("case")), flush=True)
+    for k in sorted(set(open_ids) - set(kf_hits)):
+        print("NOTE: listed finding %s of %s was not observed in this run (tier %s)" % (k, prop, tier),
+              file=sys.stderr, flush=True)
     rdir = os.path.join(BUILD, "replays", prop)
     shutil.rmtree(rdir, ignore_errors=True)
     os.makedirs(rdir, exist_ok=True)
